@@ -65,6 +65,7 @@ type Exec struct {
 	// loop discovery: header -> heap name -> store roots (nil entry = unknown writer)
 	loopRoots map[*ssa.BasicBlock]map[string][]ssa.Value
 	opaque    map[string]*opaqueInfo
+	bindFail  map[string]bool
 }
 
 type Frame struct {
